@@ -296,7 +296,7 @@ func Main(spec *Spec) {
 	out := sim.NewWorkerOut(spec.ID, *worker)
 
 	if *mode == "replay" {
-		sim.HangAfter = 6 * time.Second // a single case takes milliseconds
+		sim.HangAfter = 30 * time.Second // a single case takes milliseconds; generous, because the machine may be busy
 	}
 	procRun := -1
 	if *mode == "process" {
